@@ -38,8 +38,35 @@ def emit(b, c, st):
         b.step(st[0], c=c)
 
 
-def c07(tier, rng, fam='C07'):
+def busy_neighbour_connection(fam):
+    """two connections served by ONE Server object: eight (nine, twelve) unary handlers of the first are busy for as long
+    as they like - the second connection is none of their business: its own unary call gets a worker, its read loop goes
+    on reading, the reset of its cancelled stream reaches the handler"""
     out = []
+    for n in (8, 9, 12):
+        for kind in ('bidi', 'ss'):
+            b = B(fam, '%d unary handlers busy on a neighbouring connection while a %s stream is cancelled' % (n, kind), ser=True, ncli=2)
+            for i in range(n):
+                b.step('ucall', c=10 + i, conn=1, pay='o%d' % i, hp=[])
+            b.q()
+            b.step('sopen', c=1, conn=2, kind=kind, hp=[dict(o='recv'), dict(o='ctxwait'), ret(code=1, msg='gone')])
+            b.step('send', c=1, pay='go')
+            b.step('ucall', c=2, conn=2, pay='mine', hp=[])
+            b.q()
+            b.step('cancel', c=1)
+            b.q()
+            b.step('recv', c=1)
+            b.step('hop', c=2, h=ret(pay='done'))
+            b.step('ucall', c=3, conn=2, pay='probe', hp=[ret(pay='fine')])
+            b.q()
+            for i in range(n):
+                b.step('hop', c=10 + i, h=ret(pay='p%d' % i))
+            out.append(b.q().done())
+    return out
+
+
+def c07(tier, rng, fam='C07'):
+    out = busy_neighbour_connection(fam)
     for kind in ('bidi', 'cs', 'ss'):
         for prog in ('echo', 'burst', 'idle'):
             steps, hp = stream_base(kind, prog)
